@@ -224,6 +224,23 @@ pub fn gen_glyph(rng: &mut Rng, plain: bool) -> Glyph {
         }
         g.contours.push(c);
     }
+    if !plain && rng.chance(1, 2) {
+        // contours without points (valid glif; the recorded finding: they do not come back, everything else does): at the
+        // first / a middle / the last position, several in a row, with identifiers and object libs of their own
+        for _ in 0..1 + rng.below(3) {
+            let id = ids.next(rng);
+            let mut c = Contour::new(Vec::new(), id);
+            if c.identifier().is_some() && rng.chance(1, 2) {
+                c.replace_lib(pdict(rng, 1, true));
+            }
+            let pos = match rng.below(4) {
+                0 => 0,
+                1 => g.contours.len(),
+                _ => rng.below(g.contours.len() + 1),
+            };
+            g.contours.insert(pos, c);
+        }
+    }
     for _ in 0..rng.below(3) {
         let id = ids.next(rng);
         let mut k = Component::new(Name::new(&name_text(rng)).unwrap(), transform(rng), id);
@@ -295,6 +312,28 @@ pub fn witness(k: usize) -> Option<Glyph> {
             g.image = Some(Image::new(PathBuf::from("\u{a0}i.png\u{3000}"), None, AffineTransform::default()).unwrap());
             g.lib.insert("\u{a0}k\u{3000}".into(), plist::Value::String("\u{2003}v\u{a0}".into()));
             g.lib.insert("k2".into(), plist::Value::String("\u{a0}".into()));
+        }
+        19..=22 => {
+            let mk = |pts: usize, id: &str, lib: bool| {
+                let points = (0..pts).map(|i| ContourPoint::new(i as f64, 1.0, PointType::Line, false, None, Some(Identifier::new(&format!("{}p{}", id, i)).unwrap()))).collect();
+                let mut c = Contour::new(points, Some(Identifier::new(id).unwrap()));
+                if lib {
+                    let mut d = Plist::new();
+                    d.insert("k".into(), plist::Value::String(id.into()));
+                    c.replace_lib(d);
+                }
+                c
+            };
+            g.contours = match k {
+                19 => vec![mk(2, "c1", true), mk(0, "e", true), mk(3, "c3", true)],
+                20 => vec![mk(0, "e1", false), mk(0, "e2", true), mk(2, "c2", true), mk(1, "c3", false)],
+                21 => vec![mk(2, "c1", false), mk(0, "e", false)],
+                _ => vec![mk(0, "e1", true), mk(0, "e2", false)],
+            };
+            if k == 22 {
+                g.components.push(Component::new(Name::new("b").unwrap(), AffineTransform::default(), Some(Identifier::new("k").unwrap())));
+                g.anchors.push(Anchor::new(1.0, 2.0, None, None, Some(Identifier::new("a").unwrap())));
+            }
         }
         _ => return None,
     }
